@@ -267,6 +267,7 @@ type call struct {
 	fin       *finVal // what the callee returned
 	seq       int     // order of submission among calls accepted (for order monitor)
 	twice     bool    // the callee was entered a second time (it is parked for good)
+	obj       *callerObj
 }
 
 type exec struct {
@@ -436,6 +437,11 @@ func (e *exec) body(c *call, lane int, ctx context.Context, arg interface{}, has
 		e.hit("C14:"+kindName(e.kind)+":start-order", fmt.Sprintf("lane %d started call %d after call %d although it was accepted earlier", lane, c.id, last))
 	}
 	e.laneSeq[lane] = c.id
+	if e.kind == "mline" {
+		if want := safeSlot(c.hash, e.lanes); want >= 0 && lane != want {
+			e.hit("C14:MultiLine:wrong-lane-for-hash", fmt.Sprintf("call %d (hash %d) ran in lane %d, its hash selects lane %d of %d: equal hashes no longer share a lane", c.id, c.hash, lane, want, e.lanes))
+		}
+	}
 	if lane < 0 || lane >= e.lanes {
 		e.hit("C14:NormalizeSlotIndex:out-of-range", fmt.Sprintf("callee of call %d (hash %d) was given lane index %d, lanes=%d", c.id, c.hash, lane, e.lanes))
 	}
@@ -487,21 +493,77 @@ func canon(r interface{}, err error) string {
 	return "other:" + err.Error()
 }
 
-func (e *exec) submit(id, hash int) {
+// callerObj: what a caller hands to AsyncCall/AsyncProc. A caller may use the same object again for its next call
+// (`recall`), mutating it where the API lets it (line.CallCtx has exported fields): what an accepted call runs with
+// must be what was passed at ACCEPT time.
+type callerObj struct {
+	lineCC *line.CallCtx
+	mlCC   *mline.CallCtx
+	proc   async.Proc
+	deleg  async.Delegate
+	fn     interface{}
+}
+
+// byCtx finds the call a callee invocation belongs to through the context it was handed (every submission has its own)
+func (e *exec) byCtx(ctx context.Context, dflt *call) *call {
+	if ctx != nil {
+		if id, ok := ctx.Value(ctxKey{}).(int); ok && id >= 0 && id < len(e.calls) {
+			return e.calls[id]
+		}
+	}
+	return dflt
+}
+
+type procShared struct {
+	e *exec
+	c *call
+}
+
+func (p *procShared) Do(ctx context.Context) (interface{}, error) {
+	return p.e.body(p.e.byCtx(ctx, p.c), 0, ctx, nil, false)
+}
+
+func (e *exec) submit(id, hash int, reuse *call) {
 	cctx, cancel := context.WithCancel(context.Background())
 	ctx := context.WithValue(cctx, ctxKey{}, id)
 	c := &call{id: id, hash: hash, gate: make(chan finVal, 1), cancel: cancel, postStop: e.stopped}
 	e.calls = append(e.calls, c)
+	if reuse != nil && reuse.obj != nil {
+		c.obj = reuse.obj
+		if c.obj.lineCC != nil { // the caller re-fills its CallCtx for the new call
+			c.obj.lineCC.Param = id
+			c.obj.lineCC.Call = func(ctx context.Context, req interface{}) (interface{}, error) { return e.body(c, 0, ctx, req, true) }
+		}
+	} else {
+		c.obj = &callerObj{}
+		switch {
+		case e.kind == "line":
+			c.obj.lineCC = line.NewCallCtx(func(ctx context.Context, req interface{}) (interface{}, error) {
+				return e.body(c, 0, ctx, req, true)
+			}, id)
+		case e.kind == "mline":
+			first := c
+			c.obj.mlCC = mline.NewCallCtx(hash, func(ctx context.Context, sIndex int, req interface{}) (interface{}, error) {
+				t := e.byCtx(ctx, first)
+				return e.body(t, sIndex, ctx, req, t == first)
+			}, id)
+		default:
+			first := c
+			c.obj.proc = &procShared{e, c}
+			c.obj.deleg = func(ctx context.Context) (interface{}, error) { return e.body(e.byCtx(ctx, first), 0, ctx, nil, false) }
+			c.obj.fn = func(ctx context.Context, a int) (interface{}, error) {
+				t := e.byCtx(ctx, first)
+				return e.body(t, 0, ctx, a, true)
+			}
+		}
+	}
+	obj := c.obj
 	c.task = e.s.Go("call"+strconv.Itoa(id), func() string {
 		switch e.kind {
 		case "line":
-			return canon(e.ln.AsyncCall(ctx, line.NewCallCtx(func(ctx context.Context, req interface{}) (interface{}, error) {
-				return e.body(c, 0, ctx, req, true)
-			}, id)))
+			return canon(e.ln.AsyncCall(ctx, obj.lineCC))
 		case "mline":
-			return canon(e.ml.AsyncCall(ctx, mline.NewCallCtx(hash, func(ctx context.Context, sIndex int, req interface{}) (interface{}, error) {
-				return e.body(c, sIndex, ctx, req, true)
-			}, id)))
+			return canon(e.ml.AsyncCall(ctx, obj.mlCC))
 		case "runner":
 			v := e.variant
 			if v < 0 {
@@ -509,14 +571,14 @@ func (e *exec) submit(id, hash int) {
 			}
 			switch v {
 			case 0:
-				return canon(e.rq.AsyncCall(func(ctx context.Context, a int) (interface{}, error) { return e.body(c, 0, ctx, a, true) }, ctx, id))
+				return canon(e.rq.AsyncCall(obj.fn, ctx, id))
 			case 1:
-				return canon(e.rq.AsyncDelegate(ctx, func(ctx context.Context) (interface{}, error) { return e.body(c, 0, ctx, nil, false) }))
+				return canon(e.rq.AsyncDelegate(ctx, obj.deleg))
 			default:
-				return canon(e.rq.AsyncProc(ctx, procT{e, c}))
+				return canon(e.rq.AsyncProc(ctx, obj.proc))
 			}
 		default:
-			return canon(e.pc.AsyncProc(ctx, procT{e, c}))
+			return canon(e.pc.AsyncProc(ctx, obj.proc))
 		}
 	})
 }
@@ -977,7 +1039,14 @@ func runScript(lines []string) ([]string, map[string]string) {
 			id, ok1 := parseNat(w[1])
 			h, ok2 := parseInt64(w[2])
 			if ok1 && ok2 && id == len(e.calls) {
-				e.submit(id, h)
+				e.submit(id, h, nil)
+				out = e.drain()
+			}
+		case len(w) == 3 && w[0] == "recall" && e != nil:
+			id, ok1 := parseNat(w[1])
+			old, ok2 := parseNat(w[2])
+			if ok1 && ok2 && id == len(e.calls) && old < id {
+				e.submit(id, e.calls[old].hash, e.calls[old])
 				out = e.drain()
 			}
 		case len(w) == 4 && w[0] == "fin" && e != nil:
@@ -1087,7 +1156,7 @@ func amplify(tag string, lines []string) (n int, oneP bool) {
 				return 64, oneP
 			}
 			return 6, oneP
-		case strings.HasPrefix(l, "call ") && cancelled && !stopped:
+		case (strings.HasPrefix(l, "call ") || strings.HasPrefix(l, "recall ")) && cancelled && !stopped:
 			switch {
 			case strings.HasPrefix(tag, "witness"):
 				n, oneP = 12, true
@@ -1097,6 +1166,8 @@ func amplify(tag string, lines []string) (n int, oneP bool) {
 				n, oneP = 6, true
 			case strings.HasSuffix(tag, "+giveup"):
 				n, oneP = 3, true
+			case strings.HasPrefix(l, "recall "):
+				n, oneP = 2, true
 			}
 		}
 	}
@@ -1515,7 +1586,12 @@ func genGiveUp(r *rng.R, kind string) []string {
 			}
 		}
 		for i, m := 0, r.Range(1, 3); i < m; i++ {
-			call()
+			if r.Bool() { // the caller that gave up re-uses its call object for the next call
+				lines = append(lines, fmt.Sprintf("recall %d %d", next, first))
+				next++
+			} else {
+				call()
+			}
 		}
 	}
 	stopAt := -1
@@ -1597,6 +1673,27 @@ func genBoom(r *rng.R, kind string) []string {
 	return lines
 }
 
+// genSaturate: MultiLine with small queues, several calls with the same hash until the lane is full
+func genSaturate(r *rng.R) []string {
+	lanes, capQ := r.PickInt(2, 2, 3, 5), r.PickInt(1, 1, 2)
+	lines := []string{fmt.Sprintf("new mline %d %d", lanes, capQ)}
+	next := 0
+	hs := []int{r.Range(-6, 6), r.Range(-6, 6)}
+	var ids []int
+	for i, n := 0, r.Range(4, 8); i < n; i++ {
+		lines = append(lines, fmt.Sprintf("call %d %d", next, hs[r.Intn(2)]))
+		ids = append(ids, next)
+		next++
+	}
+	for _, id := range ids {
+		lines = append(lines, fmt.Sprintf("fin %d ok %d", id, r.Range(0, 99)))
+	}
+	for _, id := range ids {
+		lines = append(lines, fmt.Sprintf("fin %d ok %d", id, r.Range(0, 99)))
+	}
+	return lines
+}
+
 func genKernel(r *rng.R) []string {
 	lines := []string{"new line 1 0"}
 	for i := 0; i < 10; i++ {
@@ -1614,7 +1711,7 @@ func genKernel(r *rng.R) []string {
 }
 
 func genGarbage(r *rng.R) []string {
-	toks := []string{"new", "call", "fin", "cancel", "stop", "run", "boom", "hammer", "slot", "line", "mline", "pchan", "runner", "runner-call", "runner-x", "ok", "err", "0", "1", "-1", "x",
+	toks := []string{"new", "call", "recall", "fin", "cancel", "stop", "run", "boom", "hammer", "slot", "line", "mline", "pchan", "runner", "runner-call", "runner-x", "ok", "err", "0", "1", "-1", "x",
 		"99999999999999999999", "1e3", "+1", "", "  ", "0x10", "-9223372036854775809"}
 	lines := []string{r.Pick("new line 1 1", "new mline 2 0", "new bogus 1 1", "new line 2 0", "new pchan 1 1", "new runner 0 0")}
 	for i := 0; i < 8; i++ {
@@ -1651,6 +1748,14 @@ func fixedCases() []corr.Case {
 		add("witness-giveup", "new "+k+" 1 8", "call 0 1", "call 1 1", "cancel 1", "call 2 1", "call 3 1", "fin 0 ok 10", "fin 1 ok 11", "fin 2 ok 12", "fin 3 err 13", "call 4 1", "fin 4 ok 14", "stop")
 		add("witness-giveup", "new "+k+" 1 8", "call 0 1", "call 1 1", "call 2 1", "cancel 2", "cancel 1", "call 3 1", "call 4 1", "cancel 3", "call 5 1", "fin 0 ok 10", "fin 1 ok 11", "fin 2 ok 12", "fin 3 ok 13", "fin 4 ok 14", "fin 5 ok 15", "stop")
 	}
+	for _, k := range []string{"line", "mline", "runner-call", "runner-delegate", "runner-proc", "pchan"} {
+		// the caller gives up while queued and re-uses (re-fills) the same call object for its next call
+		add("witness-reuse", "new "+k+" 1 8", "call 0 1", "call 1 1", "cancel 1", "recall 2 1", "fin 0 ok 10", "fin 1 ok 11", "fin 2 ok 12", "stop")
+		add("witness-reuse", "new "+k+" 1 8", "call 0 1", "call 1 1", "call 2 1", "cancel 1", "recall 3 1", "cancel 3", "recall 4 1", "fin 0 ok 10", "fin 1 err 11", "fin 2 ok 12", "fin 3 ok 13", "fin 4 ok 14")
+	}
+	// a full lane rejects: a call never spills to another lane (equal hash → same lane, index = the hash's lane)
+	add("witness-saturate", "new mline 2 1", "call 0 0", "call 1 0", "call 2 0", "call 3 2", "call 4 1", "fin 0 ok 1", "fin 1 ok 2", "fin 4 ok 3", "call 5 0", "stop")
+	add("witness-saturate", "new mline 3 1", "call 0 -4", "call 1 2", "call 2 2", "call 3 2", "call 4 5", "fin 1 ok 1", "fin 2 ok 2", "fin 0 ok 3")
 	add("boundary", "new mline 2 0", "call 0 0", "call 1 1", "call 2 2", "call 3 3", "call 4 -1", "call 5 -2", "fin 1 ok 1", "fin 0 ok 0", "stop", "fin 2 ok 2", "fin 3 ok 3", "fin 4 ok 4", "fin 5 ok 5")
 	for _, k := range []string{"line", "mline", "runner-call", "runner-delegate", "runner-proc", "pchan"} {
 		// Run twice: still one consumer per lane, calls on one lane never overlap
@@ -1680,7 +1785,7 @@ func spec() corr.Spec {
 			case "thorough":
 				return 60000
 			}
-			return 60000
+			return 5000 // search (S7, after a broken tie): the fixed witnesses come first; keep a run through S7 short
 		},
 		Shards: func(tier string) int {
 			if tier == "quick" {
@@ -1697,6 +1802,8 @@ func spec() corr.Spec {
 			case i%16 == 5:
 				k := giveupKinds[(i/16)%len(giveupKinds)]
 				return corr.Case{Tag: "giveup-" + k, Lines: withRun(genGiveUp(r, k), 0)}
+			case i%50 == 19:
+				return corr.Case{Tag: "saturate", Lines: withRun(genSaturate(r), 0)}
 			case i%50 == 9:
 				k := giveupKinds[(i/50)%len(giveupKinds)]
 				return corr.Case{Tag: "runtwice-" + k, Lines: genRunTwice(r, k)}
